@@ -15,6 +15,7 @@ use quantities::{LinearScaledUnit, Quantity, Unit};
 mod synth;
 mod gen_dispatch;
 mod ops_extra;
+mod ops_fmt;
 
 // ------------------------------------------------------------------ amounts
 
@@ -44,6 +45,31 @@ pub fn enc(a: AmountT) -> String {
 pub fn dec_amt(s: &str) -> AmountT {
     let (c, n) = s[1..].split_once('/').expect("bad decimal");
     quantities::Decimal::new_raw(c.parse().expect("coeff"), n.parse().expect("nfd"))
+}
+
+#[cfg(not(feature = "dec"))]
+pub fn abs_amount(a: AmountT) -> AmountT {
+    if a >= 0.0 {
+        a
+    } else {
+        -a
+    }
+}
+
+#[cfg(feature = "dec")]
+pub fn abs_amount(a: AmountT) -> AmountT {
+    a.abs()
+}
+
+#[cfg(not(feature = "dec"))]
+pub fn parse_amount(s: &str) -> Option<AmountT> {
+    s.parse::<f64>().ok()
+}
+
+#[cfg(feature = "dec")]
+pub fn parse_amount(s: &str) -> Option<AmountT> {
+    use std::str::FromStr;
+    quantities::Decimal::from_str(s).ok()
 }
 
 pub fn hex(s: &str) -> String {
@@ -206,6 +232,46 @@ where
                 guard(|| qstr(q * k)),
                 guard(|| qstr(q / k))
             )
+        }
+        "fmt" => {
+            // fmt <i> <a> <flags> <w|-> <p|->
+            let q = Q::new(dec_amt(a[1]), u(a[0]));
+            let w: Option<usize> = a[3].parse().ok();
+            let p: Option<usize> = a[4].parse().ok();
+            let out = guard(|| format!("h{}", hex(&ops_fmt::fmt_dyn(&q, a[2], w, p))));
+            let reference = if q.unit().symbol().is_empty() {
+                ops_fmt::fmt_dyn(&q.amount(), a[2], w, p)
+            } else {
+                ops_fmt::fmt_dyn(&abs_amount(q.amount()), "nn00", None, p)
+            };
+            format!("{} h{}", out, hex(&reference))
+        }
+        "fmtu" => {
+            let un = u(a[0]);
+            let w: Option<usize> = a[2].parse().ok();
+            let p: Option<usize> = a[3].parse().ok();
+            format!(
+                "h{} h{}",
+                hex(&ops_fmt::fmt_dyn(&un, a[1], w, p)),
+                hex(&ops_fmt::fmt_dyn(&un.symbol(), a[1], w, p))
+            )
+        }
+        "fmtrt" => {
+            let q = Q::new(dec_amt(a[1]), u(a[0]));
+            let text = format!("{}", q);
+            let (amt_txt, sym) = if q.unit().symbol().is_empty() {
+                (text.as_str(), "")
+            } else {
+                match text.rfind(' ') {
+                    Some(k) => (&text[..k], &text[k + 1..]),
+                    None => (text.as_str(), "?"),
+                }
+            };
+            let parsed = match parse_amount(amt_txt) {
+                Some(x) => enc(x),
+                None => "unparsable".to_string(),
+            };
+            format!("h{} {} {}", hex(&text), parsed, opt_ix(Q::unit_from_symbol(sym)))
         }
         "fsym" => {
             let s = unhex(a[0]);
